@@ -102,6 +102,10 @@ class FlipDomain(Domain):
         return None
 
     def method(self, v, name, args, kwargs, node):
+        if isinstance(v, FlipArr) and name in ('ravel', 'flatten', 'reshape', 'tobytes', 'copy', 'astype'):
+            o = kwargs.get('order')
+            if o is not None and not (isinstance(o, Const) and o.v in (None, 'C')):
+                self.interp.emit('layout-order', arr=v, order=o, node=node, method=name)
         if isinstance(v, FlipArr):
             if name in ('astype', 'copy', 'newbyteorder'):
                 return v
@@ -160,6 +164,19 @@ class FlipDomain(Domain):
         return None
 
 
+def _layout_order(run, fw, results):
+    """Serialisation is in C (row-major) index order whatever the memory layout of the caller's array."""
+    seen = set()
+    for p in results:
+        for e in p.events:
+            if e['kind'] == 'layout-order' and e['node'].lineno not in seen:
+                seen.add(e['node'].lineno)
+                run.finding('C14.orient', fw.qual, norm_stmt(e['node']), '`%s` flattens/serialises in an order that follows the MEMORY layout of the array (order=%r): a Fortran-ordered or transposed-view '
+                            'map is written column-major under a row-major header and reads back transposed or scrambled' % (norm_stmt(e['node']), getattr(e['order'], 'v', e['order'])), fw.loc(e['node']))
+    if not seen:
+        run.ok('C14.orient', fw.qual, 'the map is flattened in C index order')
+
+
 def _mask_orientation(run, fw, results):
     """Boolean-mask stores: the mask was taken from an array in the same orientation as the array it is applied to."""
     n = 0
@@ -209,6 +226,7 @@ def orientation_rules(run, db):
     if not ser:
         raise AnalysisError('write_zygo_dat: serialisation (tobytes) of the phase array not found')
     _mask_orientation(run, fw, wres)
+    _layout_order(run, fw, wres)
     wflip = {(e['arr'].ud, e['arr'].lr, e['arr'].rank) for e in ser}
     if len(wflip) != 1:
         raise AnalysisError('write_zygo_dat: paths serialise differently oriented arrays')
@@ -252,6 +270,7 @@ def codev_rules(run, db):
     if not ser:
         raise AnalysisError('write_codev_gridint: np.savetxt of the array not found')
     _mask_orientation(run, fw, wres)
+    _layout_order(run, fw, wres)
     wflip = {(e['arr'].ud, e['arr'].lr) for e in ser}
     if len(wflip) != 1:
         raise AnalysisError('write_codev_gridint: inconsistent orientations serialised')
